@@ -25,7 +25,7 @@ T={
  "C19":("exploration","runtime monitoring: response-id uniqueness monitor (records born in genesis count as creations), read-back of every id through the application's query service (per block, periodic, final), look-ups of simulated ids before their creation, and block-to-block raw store diff (append-only)"),
 }
 NA={}
-FIXES=["625d429 0183829 (C16 farm/token params validation)","3207d3e ff58504 (C12 farm queue on import, token genesis validation)","65bfa74 (C12 crisis genesis order)","45bb3a0 (C09 EditToken)","1a3d839 007a7e9 (C10 LossLessSwap, swap target)","9199708 (C04 HTLC to escrow)","da70e52 (C12 HTLC timestamp 0 genesis)","3e7d2da (C12 oracle import history)","1df21f2 (C05 farm debt rounding)","59c32e3 (C06 farm AdjustPool)","8b62807 d0b1358 d156cb8 (C07 service fees)","834e3f7 92557ec (C08 service schedule)","5aec873 (C11 MT export order)","b770505 (C11 oracle host clock)","82dca39 (C02 double-hop swap settlement)","4b78834 (C17 oracle Max of all-negative responses)","c092f06 (C17 oracle Avg overflow)","83c45a0 (C16 coinswap pool creation fee denom)","3ba0ba4 (C03 htlc blocked recipient spelling)","99c804a (C06 farm AdjustPool list order)","5d088f0 (C12 nft transfer uri length)","85f5dba (C12 coinswap blocked recipient spelling)"]
+FIXES=["625d429 0183829 (C16 farm/token params validation)","3207d3e ff58504 (C12 farm queue on import, token genesis validation)","65bfa74 (C12 crisis genesis order)","45bb3a0 (C09 EditToken)","1a3d839 007a7e9 (C10 LossLessSwap, swap target)","9199708 (C04 HTLC to escrow)","da70e52 (C12 HTLC timestamp 0 genesis)","3e7d2da (C12 oracle import history)","1df21f2 (C05 farm debt rounding)","59c32e3 (C06 farm AdjustPool)","8b62807 d0b1358 d156cb8 (C07 service fees)","834e3f7 92557ec (C08 service schedule)","5aec873 (C11 MT export order)","b770505 (C11 oracle host clock)","82dca39 (C02 double-hop swap settlement)","4b78834 (C17 oracle Max of all-negative responses)","c092f06 (C17 oracle Avg overflow)","83c45a0 (C16 coinswap pool creation fee denom)","3ba0ba4 (C03 htlc blocked recipient spelling)","99c804a (C06 farm AdjustPool list order)","5d088f0 (C12 nft transfer uri length)","85f5dba (C12 coinswap blocked recipient spelling)","e31c76b (C11 token mint refusal text printed memory addresses)"]
 checks=[]
 for p in props:
     i=p['id']
